@@ -341,6 +341,10 @@ def units_structural(rep, prop='C06'):
                 elif isinstance(n, ast.Call) and isinstance(n.func, ast.Attribute) and n.func.attr == '_offset' \
                         and len(n.args) >= 4 and not any(isinstance(a, ast.Starred) for a in n.args[:4]):
                     vals.append(('offset_dcol', n.args[3], n.lineno))     # _offset(ln, col, dln, dcol_offset, ...): byte delta
+                elif isinstance(n, ast.Call) and any(k.arg in ('col_offset', 'end_col_offset') for k in n.keywords):
+                    for k in n.keywords:     # Name(id=.., col_offset=..): a node constructed with explicit positions
+                        if k.arg in ('col_offset', 'end_col_offset'):
+                            vals.append(('ctor_' + k.arg, k.value, n.lineno))
                 for kind, v, lineno in vals:
                     sites.append([mod, fn.name, lineno - fn.lineno, kind, ast.unparse(v)[:60], _is_byte_expr(fn, v), lineno])
 
